@@ -138,7 +138,8 @@ CHECKS = {
         "multi-mode netlist AND with independent per-mode solves and zero cross-mode coefficients; runs the queries on models, results, "
         "structures and placed sub-solvers."
         " The expansion stream includes blocks that refill one persistent buffer (CWA, FPR). Nested solvers and queries also use mode-major pin layouts (a_TE, b_TE, a_TM, b_TM). The expansion stream covers EVERY library block (constructors of the C04 table; found F31). Query cases use base names containing underscores (in_1, port_a1, o_1_2) and query their prefixes too. Half of the placed-structure query cases first lose all pins of one base name (a neighbour wired by connect_all is removed). A user waveguide declared without modes is expanded like any other block."
-        " On every run harness/translate_modes.py translates the CURRENT source of Model.expand_mode, Model._expand_S, diag_blocks, Solver.connect_all and the four mode queries to Gallina and coq/templates/ModesSrcProof.v proves: the new pin dictionary is ((p, mode_i), i*N + n), the block-diagonal matrix equals Modes.expand_S at every index below np*N for every N, np, S, the links are exactly connect_all_links, the queries are pin_modes / pin_basenames (5 theorems, closed).",
+        " On every run harness/translate_modes.py translates the CURRENT source of Model.expand_mode, Model._expand_S, diag_blocks, Solver.connect_all and the four mode queries to Gallina and coq/templates/ModesSrcProof.v proves: the new pin dictionary is ((p, mode_i), i*N + n), the block-diagonal matrix equals Modes.expand_S at every index below np*N for every N, np, S, the links are exactly connect_all_links, the queries are pin_modes / pin_basenames (5 theorems, closed)."
+        " The circuit stream also wires modes one by one with connect (all common modes, or only some of them with the rest exposed or completed by a later connect_all) and sends two modes of ONE port to two different partners; the model takes the per-link mode selection into account.",
    note="Trusted: Coq kernel + vm_compute; Bignums primitives for the executed instance; model Modes.v tied by sampled correspondence; "
         "harness. The circuit-level statement is proved for circuits whose blocks all carry the same mode list (every link replicated per "
         "mode); partially overlapping mode lists are covered by the per-mode comparison in Coq (tie), not by a theorem. Follows the fixed code (F17, F18). Expansion of an "
